@@ -78,7 +78,8 @@ func c05AWSEnv() {
 	} {
 		os.Setenv(k, v)
 	}
-	for _, k := range []string{"AWS_PROFILE", "AWS_SESSION_TOKEN", "AWS_ENDPOINT_URL", "AWS_ENDPOINT_URL_S3", "AWS_ENDPOINT_URL_DYNAMODB"} {
+	// AWS_CA_BUNDLE (set in some sandboxes) makes every LoadDefaultConfig parse the whole system CA file.
+	for _, k := range []string{"AWS_PROFILE", "AWS_SESSION_TOKEN", "AWS_ENDPOINT_URL", "AWS_ENDPOINT_URL_S3", "AWS_ENDPOINT_URL_DYNAMODB", "AWS_CA_BUNDLE"} {
 		os.Unsetenv(k)
 	}
 }
